@@ -20,7 +20,7 @@ LEVEL_NOTE = ("Trusted: Lean kernel, standard axioms; model tied by corresponden
               "case runs in a fresh fork and the finding's witness is replayed.")
 TECHNIQUE = "Lean 4 theorems (first-acceptor specification by induction on the member list); differential correspondence; member-by-member oracle on the real routines"
 DESIGN_REF = "DESIGN.md §5 C08"
-MODULES = ["TypelibModel.Props.Dispatch"]
+MODULES = ["TypelibModel.Props.C08", "TypelibModel.Props.Dispatch"]
 TABLES = True
 RULE = ("ordered member tuples of length 2-4 (permutations, None at every position, Union / Optional / X|Y spellings) over a pool of "
         "12 member types incl. int, str, float, Decimal, date, datetime, UUID, list[int], dict[str,int], a dataclass, an Enum, a "
